@@ -121,6 +121,14 @@ structure Cond where
   val : Lit
   deriving Repr, DecidableEq, Inhabited
 
+/-- `v1_key_case` -/
+inductive KeyCaseOpt | camel | pascal | kebab | snake | auto
+  deriving Repr, DecidableEq, Inhabited
+
+/-- `v1_on_unknown_key` -/
+inductive KeyAct | ignore | raise | warn
+  deriving Repr, DecidableEq, Inhabited
+
 /-- Own attributes of a `Meta` (unset = `none`), restricted to what the model interprets. -/
 structure MetaCfg where
   keyTransformLoad : Option LetterCaseOpt := none
@@ -133,6 +141,10 @@ structure MetaCfg where
   tagKey : Option S := none
   autoAssignTags : Option Bool := none
   recursiveClasses : Option Bool := none
+  v1 : Option Bool := none
+  v1KeyCase : Option KeyCaseOpt := none
+  v1OnUnknown : Option KeyAct := none
+  v1Unsafe : Option Bool := none
   -- special (never merged)
   tag : Option S := none
   recursive : Option Bool := none
